@@ -14,7 +14,7 @@ VARIABLES T, v, kind
 
 Srcs == {"alias", "aalias", "cfg"}
 AliasName(f, s) == f \o "_" \o s
-Candidates == <<"a", "b", "a_alias", "a_aalias", "a_cfg", "b_alias", "b_cfg", "zz">>
+Candidates == <<"a", "b", "a_alias", "a_aalias", "a_cfg", "b_alias", "b_cfg", "zz", "g_a">>
 KeyVal(i) == I(10 + i)
 
 FieldOpts(f, Z) == (IF "alias" \in Z THEN << <<"alias", AliasName(f, "alias")>> >> ELSE <<>>)
@@ -41,6 +41,8 @@ Classes == { ClassT(Sa, Sb, al, fo, "none", ta) : Sa \in SUBSET Srcs, Sb \in SUB
            \cup { Class({}, {}, al, fo, "plain") : al \in BOOLEAN, fo \in BOOLEAN }     \* a's alias shadows b's name
            \cup { ClassT({}, {"alias"}, al, fo, "chain", ta) : al \in BOOLEAN, fo \in BOOLEAN, ta \in { <<"int">>, <<"any">> } }
            \cup { ClassT({}, {}, al, fo, "swap", ta) : al \in BOOLEAN, fo \in BOOLEAN, ta \in { <<"int">>, <<"any">> } }
+           \* K(M3(G3)): the grandparent declared both fields with other aliases ("g_a", "g_b"); the middle class's are in effect
+           \cup { Chain3(ClassT(Sa, Sb, al, fo, "none", <<"int">>)) : Sa \in SUBSET {"alias", "aalias"}, Sb \in SUBSET {"alias"}, al \in BOOLEAN, fo \in BOOLEAN }
 
 InputFor(K) == LET idx == SelectSeq([i \in DOMAIN Candidates |-> i], LAMBDA i : i \in K) IN
                Dct([n \in DOMAIN idx |-> <<S(Candidates[idx[n]]), KeyVal(idx[n])>>])
